@@ -70,6 +70,7 @@ type wgSt struct {
 }
 
 type proc struct {
+	killed    bool // terminated by Process.Kill before it exited by itself
 	inv       *Invocation
 	started   bool
 	closed    bool // stdin closed
@@ -426,6 +427,8 @@ func (k *Kernel) handle(t *task, r *Req) {
 		k.doProcStart(t, r)
 	case OpProcStdin:
 		k.doProcStdin(t, r)
+	case OpProcKill:
+		k.doProcKill(t, r)
 	case OpProcWait:
 		k.doProcWait(t, r)
 	default:
